@@ -188,33 +188,48 @@ impl Core {
         }
     }
 
-    /// input classes of defects owned by other components (sender side), so that their failures are
-    /// told apart from anything new
-    fn known_classes(&self, s: &Session, oi: &ObjInfo) -> Vec<&'static str> {
-        let mut v = Vec::new();
-        // the FDT itself is an object coded with the session's default OTI
-        if s.sp.oti.sch == Scheme::Raptor && (s.fdts.is_empty() || s.fdts.iter().any(|f| ks_of(&s.sp.oti, f.len).iter().any(|k| *k == 2 || *k == 3))) {
-            v.push("C01:raptor-block-lt4");
-        }
-        if oi.oti.sch == Scheme::Raptor && ks_of(&oi.oti, oi.tl.unwrap_or(0)).iter().any(|k| *k == 2 || *k == 3) {
-            v.push("C01:raptor-block-lt4");
-        }
-        v
+    /// D23/D26 observed on the sender's own output: a Raptor object has a block of 2 or 3 source
+    /// symbols and the sender emitted NO packet of that block (block creation failed, the block
+    /// encoder stopped there)
+    fn obj_truncated(&self, s: &Session, oi: &ObjInfo) -> bool {
+        let toi = match oi.toi {
+            Some(t) => t,
+            None => return false,
+        };
+        oi.oti.sch == Scheme::Raptor
+            && ks_of(&oi.oti, oi.tl.unwrap_or(0))
+                .iter()
+                .enumerate()
+                .any(|(b, k)| (*k == 2 || *k == 3) && !s.stream.iter().any(|d| d.toi == toi && d.sbn == b as u32))
     }
 
-    fn known_sender_class(&self, s: &Session, oi: &ObjInfo) -> Option<&'static str> {
-        self.known_classes(s, oi).first().copied()
+    /// the same for an FDT instance (an object coded with the session's default OTI)
+    fn fdt_truncated(&self, s: &Session, f: &FdtInst) -> bool {
+        s.sp.oti.sch == Scheme::Raptor
+            && ks_of(&s.sp.oti, f.len)
+                .iter()
+                .enumerate()
+                .any(|(b, k)| (*k == 2 || *k == 3) && !s.stream.iter().any(|d| d.toi == 0 && d.fdt_id == f.id && d.sbn == b as u32))
+    }
+
+    /// the sender-side mechanism of finding D26 explains that `oi` is not delivered: the object itself was
+    /// sent truncated, or every FDT instance the sender emitted was (so nothing announces the object)
+    fn raptor_lt4_explains(&self, s: &Session, oi: &ObjInfo) -> bool {
+        self.obj_truncated(s, oi) || (!s.fdts.is_empty() && s.fdts.iter().all(|f| self.fdt_truncated(s, f)))
     }
 
     fn oracle_sender_panic(&self, s: &Session, p: &str, o: &mut Oracle) {
-        // only a failing block creation makes `read` panic (debug_assert at blockencoder.rs:81)
-        let cls = s
-            .objs
-            .iter()
-            .flat_map(|oi| self.known_classes(s, oi))
-            .next()
-            .unwrap_or("C01:sender-panic");
-        let cls = if s.sp.prop == "C01" || cls != "C01:sender-panic" { cls.to_string() } else { format!("{}:sender-panic", s.sp.prop) };
+        // finding D26: creation of a FIRST block of 2 or 3 Raptor symbols fails and `read` hits the
+        // debug_assert of blockencoder.rs; any other panic (other location, other input) is new
+        let first_lt4 = |oti: &OtiP, tl: u64| oti.sch == Scheme::Raptor && ks_of(oti, tl).first().map(|k| *k == 2 || *k == 3).unwrap_or(false);
+        let input = s.objs.iter().any(|oi| oi.toi.is_some() && first_lt4(&oi.oti, oi.tl.unwrap_or(0)))
+            || s.fdts.iter().any(|f| first_lt4(&s.sp.oti, f.len))
+            || (s.sp.oti.sch == Scheme::Raptor && s.fdts.is_empty());
+        let cls = if p.contains("blockencoder.rs") && input && s.sp.prop == "C01" {
+            "C01:raptor-block-lt4".to_string()
+        } else {
+            format!("{}:sender-panic", s.sp.prop)
+        };
         o.fail(&cls, &format!("Sender::read panics at {}", p));
     }
 
@@ -308,8 +323,7 @@ impl Core {
 
     fn oracle_c01(&self, s: &Session, rx: &RxResult, sel: &[usize], o: &mut Oracle) {
         if s.stuck {
-            let cls = s.objs.iter().filter_map(|oi| self.known_sender_class(s, oi)).next().unwrap_or("C01:sender-stuck");
-            o.fail(cls, "the sender never finishes its transfers");
+            o.fail("C01:sender-stuck", "the sender never finishes its transfers");
             return;
         }
         for oi in &s.objs {
@@ -320,24 +334,25 @@ impl Core {
             // receiver-side resource hypothesis (C17 demands the limit): the configured object cache
             // holds the interleave window
             let cache = if s.sp.maxc == 0 { 10u128 * 1024 * 1024 } else { s.sp.maxc as u128 };
-            if (s.sp.w as u128 + 1) * self.max_block_bytes(oi) > cache {
-                continue;
-            }
+            // (only the liveness / count / no-error-call checks depend on it: what IS completed must
+            // be exact whatever the limits)
+            let limit_binds = (s.sp.w as u128 + 1) * self.max_block_bytes(oi) > cache;
             let content = oi.content.as_ref().unwrap();
             let recs: Vec<_> = rx.recs.iter().filter(|r| r.toi == toi).collect();
             let nc: usize = recs.iter().map(|r| count(r, 'c')).sum();
             let nerr: usize = recs.iter().map(|r| count(r, 'e') + count(r, 'i')).sum();
             let carousel = oi.p.car != Car::None;
-            let want = if s.sp.ro || carousel { 1 } else { oi.p.m as usize };
-            let known = self.known_sender_class(s, oi);
+            // max_transfer_count = 0 still gives one transfer
+            let want = if s.sp.ro || carousel { 1 } else { (oi.p.m as usize).max(1) };
             let mut fails: Vec<(String, String)> = Vec::new();
-            if nc == 0 {
+            if limit_binds {
+            } else if nc == 0 {
                 fails.push(("C01:not-delivered".into(), format!("object {} (toi {}) never completed; calls {:?}", oi.idx, toi, recs.iter().map(|r| r.calls.borrow().iter().collect::<String>()).collect::<Vec<_>>())));
             } else if (!carousel && nc != want) || (carousel && s.sp.ro && nc != 1) {
                 let cls = if oi.p.cc == "nocache" && s.sp.ro && nc > 1 { "C01:no-cache-redelivered" } else if nc > want { "C01:delivered-too-often" } else { "C01:delivered-too-seldom" };
                 fails.push((cls.into(), format!("object {} (toi {}) completed {} times, expected {} (receive-once {}, {} transfers)", oi.idx, toi, nc, want, s.sp.ro, oi.p.m)));
             }
-            if nerr > 0 {
+            if nerr > 0 && !limit_binds {
                 fails.push(("C01:error-call".into(), format!("object {} (toi {}): {} error/interrupted calls on a clean channel", oi.idx, toi, nerr)));
             }
             for r in &recs {
@@ -350,22 +365,36 @@ impl Core {
                     }
                 }
             }
+            // --- known findings: a class is used only when the failure IS that mechanism ---
+            let calls_of = |r: &Rec| r.calls.borrow().iter().filter(|c| **c != 'w').collect::<String>();
+            let clean_complete = |r: &Rec| calls_of(r) == "oc" && *r.data.borrow() == *content;
+            // D28 (receiver.rs check_object_state does not register a no-cache object as completed): the
+            // first writer completes with the right bytes, every later writer of the TOI is a further exact
+            // completion or is cut by the close-object packet (`interrupted`; the last one may still be open when
+            // the stream ends); no `error` call anywhere
+            let d28 = oi.p.cc == "nocache"
+                && recs.len() >= 2
+                && clean_complete(recs[0])
+                && recs[1..].iter().enumerate().all(|(n, r)| clean_complete(r) || calls_of(r) == "oi" || (n + 2 == recs.len() && calls_of(r) == "o"));
+            // D29 (receiver.rs gc_object_completed forgets a TOI the newest FDT instance does not list):
+            // ObjectsBeingTransferred + receive-once, at most one copy per transfer, every writer an exact
+            // completion, and an FDT instance not listing the TOI was emitted
+            let d29 = !s.sp.full
+                && s.sp.ro
+                && (oi.p.m > 1 || carousel)
+                && recs.iter().all(|r| clean_complete(r))
+                && (carousel || nc <= (oi.p.m as usize).max(1))
+                && s.fdts.iter().any(|f| !f.tois.contains(&toi));
+            // D26: sender side, see `raptor_lt4_explains`; it can explain a missing delivery and the writer
+            // cut by the close-object flag, never wrong bytes or an extra copy
+            let d26 = nc == 0 && self.raptor_lt4_explains(s, oi);
             for (c, d) in fails {
-                // receiver.rs check_object_state: a NoCache object is not entered in objects_completed, so the
-                // packets that follow its completion re-create it (second copy, or an interrupted writer)
-                let nocache = oi.p.cc == "nocache" && nc >= 1 && (c == "C01:delivered-too-often" || c == "C01:error-call");
-                // receiver.rs gc_object_completed: a TOI not listed by the newest FDT instance is forgotten; in
-                // ObjectsBeingTransferred mode that is every object whose transfer ended, so its next transfer
-                // is delivered again although receive-once is on
-                let obt_gc = !s.sp.full && s.sp.ro && (oi.p.m > 1 || carousel) && c == "C01:delivered-too-often";
-                let cls = if c.starts_with("C01:meta-") {
-                    c
-                } else if obt_gc {
-                    "C01:obt-gc-redelivered".to_string()
-                } else if nocache {
-                    "C01:no-cache-redelivered".to_string()
-                } else {
-                    known.map(|k| k.to_string()).unwrap_or(c)
+                let cls = match c.as_str() {
+                    "C01:delivered-too-often" if d29 => "C01:obt-gc-redelivered".to_string(),
+                    "C01:delivered-too-often" | "C01:error-call" | "C01:no-cache-redelivered" if d28 => "C01:no-cache-redelivered".to_string(),
+                    "C01:no-cache-redelivered" => "C01:delivered-too-often".to_string(),
+                    "C01:not-delivered" | "C01:error-call" if d26 => "C01:raptor-block-lt4".to_string(),
+                    _ => c,
                 };
                 o.fail(&cls, &d);
             }
@@ -465,8 +494,6 @@ impl Core {
                 "C02:D3-close-flag-early"
             } else if first_b.is_some() && fpos.unwrap() > first_b.unwrap() {
                 "C02:fdt-after-close"
-            } else if let Some(k) = self.known_sender_class(s, oi) {
-                k
             } else {
                 "C02:not-delivered"
             };
@@ -505,11 +532,7 @@ impl Core {
             }
             let delivered = rx.recs.iter().any(|r| r.toi == toi && count(r, 'c') > 0 && *r.data.borrow() == *content);
             if !delivered {
-                let cls = if let Some(k) = self.known_sender_class(s, oi) {
-                    k
-                } else {
-                    "C16:not-delivered"
-                };
+                let cls = "C16:not-delivered";
                 o.fail(
                     cls,
                     &format!(
